@@ -15,6 +15,8 @@ from pymemcache.exceptions import MemcacheError
 
 PROPERTY = "C13"
 LEVEL = "exploration"
+# parts repeated in a child interpreter started with -O and with warnings turned into errors (vlib/runner.py, MODES)
+MODE_PARTS = {"OW": ['close-in-between', 'real-probe-trains', 'two-outages']}
 RULE = ("history = event sequence over {key-addressed operation (get, set, delete, incr, get_many, set_many, and a set_many with a mixed outcome - one item stored, one answered NOT_STORED by a healthy server) on a key "
         "owned by server i; clock advance by 0.5/1/1.5 retry_timeouts or 0.5/1/1+eps/2+eps dead_timeouts; server i starts "
         "failing with ConnectionRefused / timeout / reset at connect / reset while the reply is awaited (connection and request accepted) / OSError; server i heals} for 1-3 servers x retry_attempts "
